@@ -42,3 +42,25 @@ def seed() -> int:
 def tier() -> str:
     t = os.environ.get('VERIF_TIER', 'quick')
     return t if t in ('quick', 'thorough') else 'quick'
+
+
+def bfs_paths(edges: list, key, init_key=None) -> dict:
+    """For edges [{s, a, t}] dumped by TLC: state key -> shortest action list from the initial state."""
+    from collections import deque
+    succ: dict = {}
+    for e in edges:
+        succ.setdefault(key(e['s']), []).append(e)
+    if init_key is None:
+        targets = {key(e['t']) for e in edges}
+        cands = [key(e['s']) for e in edges if key(e['s']) not in targets]
+        init_key = cands[0] if cands else min((key(e['s']) for e in edges), key=len)
+    paths = {init_key: []}
+    todo = deque([init_key])
+    while todo:
+        s = todo.popleft()
+        for e in succ.get(s, ()):
+            t = key(e['t'])
+            if t not in paths:
+                paths[t] = paths[s] + [e['a']]
+                todo.append(t)
+    return paths
